@@ -805,6 +805,11 @@ std::vector<double> Minimization::minimize(std::vector<double>& starting_point, 
 
 std::vector<double> Minimization::minimize(std::vector<double>& starting_point, std::vector<double>& deltas, std::function<double(std::vector<double>)> func)
 {
+	if(deltas.size() != starting_point.size())
+	{
+		std::cerr << "Error in libphysica::Minimization::minimize(): starting_point and deltas must have the same size." << std::endl;
+		std::exit(EXIT_FAILURE);
+	}
 	int ndim = starting_point.size();
 	std::vector<std::vector<double>> pp(ndim + 1, std::vector<double>(ndim, 0.0));
 	for(int i = 0; i < ndim + 1; i++)
@@ -821,11 +826,17 @@ std::vector<double> Minimization::minimize(std::vector<std::vector<double>>& pp,
 {
 	const int NMAX	  = 5000;
 	const double TINY = 1.0e-10;
-	if(pp.empty())
+	if(pp.size() < 2)
 	{
-		std::cerr << "Error in libphysica::Minimization::minimize(): The simplex has no points." << std::endl;
+		std::cerr << "Error in libphysica::Minimization::minimize(): The simplex needs at least two points." << std::endl;
 		std::exit(EXIT_FAILURE);
 	}
+	for(unsigned int i = 1; i < pp.size(); i++)
+		if(pp[i].size() != pp[0].size())
+		{
+			std::cerr << "Error in libphysica::Minimization::minimize(): The points of the simplex must have the same dimension." << std::endl;
+			std::exit(EXIT_FAILURE);
+		}
 	mpts			  = pp.size();		// rows
 	ndim			  = pp[0].size();	// columns
 	std::vector<double> psum(ndim), pmin(ndim), x(ndim);
